@@ -122,6 +122,26 @@ theorem rt_share_msg (l : List (Option (Bool × Nat))) (hl : l.length < 2 ^ 64)
   simp only [hng, if_false]
   exact decN_enc_on hel l (fun o ho b m h => hm b m (h ▸ ho)) r
 
+/-- `rt_vec` for codecs that round-trip on a predicate (integers below their width). -/
+theorem rt_vec_on {α} {P : α → Prop} {e : α → Bytes} {d : Dec α} (h : RTOn P e d) (h1 : ∀ a, 1 ≤ (e a).length)
+    (l : List α) (hl : l.length < 2 ^ 64) (hp : ∀ a ∈ l, P a) (r : Bytes) : decVec d (encVec e l ++ r) = .ok (l, r) := by
+  unfold decVec encVec
+  rw [List.append_assoc, decU64_enc _ hl]
+  have := flatMap_length_ge e h1 l
+  have hng : ¬ l.length > (l.flatMap e ++ r).length := by rw [List.length_append]; omega
+  simp only [hng, if_false]
+  exact decN_enc_on h l hp r
+
+theorem rton_u128 : RTOn (fun m : Nat => m < 2 ^ 128) encU128 decU128 := fun m r hm => decU128_enc m hm r
+
+/-- the nested d-value / key-vector messages `Vec<Vec<u128>>` round-trip for every honest content. -/
+theorem rt_vecvec_u128 (ll : List (List Nat)) (hl : ll.length < 2 ^ 64)
+    (hin : ∀ l ∈ ll, l.length < 2 ^ 64 ∧ ∀ m ∈ l, m < 2 ^ 128) (r : Bytes) :
+    decVec (decVec decU128) (encVec (encVec encU128) ll ++ r) = .ok (ll, r) := by
+  have hel : RTOn (fun l : List Nat => l.length < 2 ^ 64 ∧ ∀ m ∈ l, m < 2 ^ 128) (encVec encU128) (decVec decU128) :=
+    fun l r hp => rt_vec_on rton_u128 (by intro a; rw [encU128_length]; omega) l hp.1 hp.2 r
+  exact rt_vec_on hel (by intro l; unfold encVec; rw [List.length_append, encU64_length]; omega) ll hl hin r
+
 /-- a codec that round-trips is prefix-free and injective: two values never share an encoding, and the bytes that follow an
     encoded value are determined too — the framing cannot be re-split by a peer into a different (value, rest) pair. -/
 theorem rt_injective {α} {e : α → Bytes} {d : Dec α} (h : RT e d) (a b : α) (r r' : Bytes)
